@@ -246,7 +246,7 @@ func c06run(w *report.W) {
 	}
 	forests := c06forests(maxNodes, 4)
 	w.P.Bounds["forests"] = fmt.Sprintf("%d ordered forests of <=%d nodes over {C,N,U,G}, group depth <=4", len(forests), maxNodes)
-	pipeEnvs := []map[string]string{{"A": "pa", "B": "pb"}, nil, {}, {"A": "pa"}, {"B": "pb"}, {"A": "", "B": "pb"}, {"my.var-x": "v", "2FA(x86) \u00e9": "w", "A": "pa"}}
+	pipeEnvs := []map[string]string{{"A": "pa", "B": "pb"}, nil, {}, {"A": "pa"}, {"B": "pb"}, {"A": "", "B": "pb"}, {"my.var-x": "v", "2FA(x86) \u00e9": "w", "A": "pa"}, {"N\U0001F680x": "rocket", "N\uff25x": "fullwidth", "N\ue000": "private"}}
 	for _, f := range forests {
 		nodes := strings.Count(f, "C") + strings.Count(f, "N") + strings.Count(f, "U") + strings.Count(f, "G")
 		for pi, pe := range pipeEnvs {
